@@ -133,7 +133,7 @@ def generate(rng, tier):
     ops = []
     live = set()
     fault_free = rng.random() < 0.3
-    for _ in range(rng.randint(10, 40)):
+    for _ in range(rng.randint(10, 40 if tier == "quick" else 80)):
         by = rng.randrange(nholders)
         r = rng.random()
         dst = rng.randrange(N_HANDLES)
